@@ -122,7 +122,15 @@ def frozen(a, st):
         if a.snap is not None:
             return a
         return SArr(a.cell, a.dt, a.shape, a.fixed, a.name, snap=st.heap[a.cell])
-    return a  # LArr results are built from frozen leaves by construction (see elementwise)
+    if isinstance(a, LArr) and a.base is not None:
+        # a VIEW of a heap array (slice / chunk / window): numpy computes eagerly, so an operand taken from a view holds the
+        # contents the base has NOW, whatever is stored into the base afterwards
+        arr0, mp = a.base
+        if arr0.snap is not None:
+            return a
+        snap = SArr(arr0.cell, arr0.dt, arr0.shape, (), arr0.name, snap=st.heap[arr0.cell])
+        return LArr(a.dt, a.shape, lambda ix, st2, snap=snap, mp=mp: array_read(st2, snap, mp(ix)), None, a.name + "@")
+    return a  # computed LArr results are built from frozen leaves by construction (see elementwise)
 
 
 class LazyMixin:
@@ -491,7 +499,7 @@ class LazyMixin:
         dt = args[0] if args else kw.get("dtype")
         from .npmodel import dtype_code
         code = dtype_code(dt)
-        src = frozen(recv, st) if isinstance(recv, SArr) else recv
+        src = frozen(recv, st)
 
         def get(ix, st2, src=src, code=code):
             return coerce_scalar(elem(src, ix, st2), code) if code != "f" else fl.F(_num(elem(src, ix, st2)))
